@@ -6,10 +6,15 @@ Continuation of Props/PyLegacySeq2.lean: `add_constraint` of the legacy `Sequenc
   `py_seq_union_reads`         `_iupac_union` (and the helpers under it) leave the object untouched and read only `ToU`
   `py_seq_merge_eq`            `_merge_constraints(self._sequence, con)` as written = the per-position results `bin_iupac[bin x & bin y]` of the current
                                `add_constraints`, for IUPAC sequences of either molecule (lists of the same results, exceptions included)
+  `py_seq_add_constraint_eq`   `add_constraint(con)` as written on IUPAC sequences of equal length, in terms of the per-position results `l` of the current
+                               `add_constraints`: an exception of a look-up is passed on, an empty result refuses (DSDObjectsError, object unchanged), otherwise
+                               `_sequence := l`.  (The current function joins `l` and refuses when the text is shorter than the sequence: the equivalence of the
+                               two refusal tests - every `bin_iupac` entry has at most one character - is NOT proved here.)
 -/
 import DsdVerif.Props.PyLegacySeq2
 import DsdVerif.Lemmas.PyLegacySeq3
 import DsdVerif.Lemmas.PyLegacySeq3c
+import DsdVerif.Lemmas.PyLegacySeq3d
 
 namespace Dsd.PyLegacySeq
 open Dsd Dsd.Gen
@@ -26,6 +31,16 @@ theorem py_seq_merge_eq (s c : List Char) (mol : String) (hm : mol = "DNA" ∨ m
     (py_SequenceConstraint_merge_constraints (s.map (fun x => [x])) (c.map (fun x => [x]))).exec (mkS s mol) =
       ((List.mapM (curUnion (tblOf mol)) (List.zip s c)).map (List.map String.toList), mkS s mol) := merge_eq s c mol hm hs hc
 
+theorem py_seq_add_constraint_eq (s c : List Char) (mol : String) (hm : mol = "DNA" ∨ mol = "RNA") (hs : ∀ x ∈ s, x ∈ codesOf mol)
+    (hc : ∀ x ∈ c, x ∈ codesOf mol) (hl : s.length = c.length) :
+    (py_SequenceConstraint_add_constraint (c.map (fun x => [x]))).exec (mkS s mol) =
+      match List.mapM (curUnion (tblOf mol)) (List.zip s c) with
+      | .error e => (.error e, mkS s mol)
+      | .ok l =>
+        if (l.map String.toList).contains [] then (.error (.fault "DSDObjectsError"), mkS s mol)
+        else (.ok (), { mkS s mol with _sequence := l.map String.toList }) := add_constraint_eq s c mol hm hs hc hl
+
+#print axioms py_seq_add_constraint_eq
 #print axioms py_seq_union_reads
 #print axioms py_seq_merge_eq
 #print axioms py_seq_union_pairs_dna
